@@ -3,5 +3,5 @@ CONSTANTS
   MaxJumps = 16
   Dgrams <- DgCov
 SPECIFICATION PSpec
-INVARIANTS BoundedDepth NoUninit Safe Conforms Terminates
+INVARIANTS BoundedDepth NoUninit Terminates
 CHECK_DEADLOCK FALSE
